@@ -79,6 +79,31 @@ def shared():
     return out
 
 
+def same_alias():
+    """Scoping patterns: the SAME alias (and the same column name) denotes DIFFERENT base tables in sibling or nested scopes --
+    aliases are only unique within a scope, the lineage of one must not be taken for the other's."""
+    out = []
+    for l, r in [("x", "y"), ("y", "z"), ("z", "x")]:
+        out.append(f"SELECT o.b + r.b AS p FROM (SELECT t.b FROM {l} AS t) AS o CROSS JOIN (SELECT t.b FROM {r} AS t) AS r")
+        out.append(f"SELECT o.b AS p, r.b AS q FROM (SELECT t.b FROM {l} AS t) AS o CROSS JOIN (SELECT t.b FROM {r} AS t) AS r")
+        out.append(f"WITH o AS (SELECT t.b FROM {l} AS t), r AS (SELECT t.b FROM {r} AS t) SELECT o.b - r.b AS p FROM o CROSS JOIN r")
+        out.append(f"SELECT t.b + (SELECT MAX(t.b) FROM {r} AS t) AS p FROM {l} AS t")
+        out.append(f"SELECT u.b AS p FROM (SELECT t.b FROM {l} AS t UNION ALL SELECT t.b FROM {r} AS t) AS u")
+        out.append(f"SELECT o.k AS p, r.k AS q FROM (SELECT t.b AS k FROM {l} AS t) AS o CROSS JOIN (SELECT t.b + 1 AS k FROM {r} AS t) AS r")
+    return out
+
+
+def correlated():
+    """A scalar sub-query whose SELECT list uses a column of the OUTER query (data flow from the outer source into the output)."""
+    return [
+        "SELECT (SELECT MAX(x.a + y.c) FROM y) AS p FROM x",
+        "SELECT x.b AS p, (SELECT MAX(y.c) + x.a FROM y) AS q FROM x",
+        "SELECT (SELECT MAX(y.c) + s.k FROM y) AS p FROM (SELECT a AS k FROM x) AS s",
+        "WITH s AS (SELECT a AS k, b FROM x) SELECT s.b AS p, (SELECT SUM(y.b + s.k) FROM y) AS q FROM s",
+        "SELECT x.a AS p, (SELECT MAX(y.c) FROM y) + x.b AS q FROM x",
+    ]
+
+
 def fixed():
     return [
         "WITH t AS (SELECT a, b FROM x), s AS (SELECT a AS a2, b AS b2 FROM t) SELECT s.a2 AS p, t.b AS q FROM s CROSS JOIN t",
@@ -96,7 +121,7 @@ def fixed():
 
 def programs(tier: str, seed: int):
     rnd = random.Random(seed)
-    out = [("base", q) for q in base()] + [("fixed", q) for q in fixed()] + [("shared", q) for q in shared()]
+    out = [("base", q) for q in base()] + [("fixed", q) for q in fixed()] + [("shared", q) for q in shared()] + [("same_alias", q) for q in same_alias()] + [("correlated", q) for q in correlated()]
     out += [("nested", q) for q in nested(rnd, 150 if tier == "quick" else 1500)]
     seen, res = set(), []
     for f, q in out:
